@@ -881,14 +881,15 @@ def editOverwriteChar (ch : Char) : EM Unit := do
   | none => pure ()
 
 def editYank (text : Text) (anchor : Anchor) (n : Nat) : EM Unit := do
-  let moved ← if anchor == .after then lbQuiet (LB.moveForward S U 1) else pure false
+  let pos := (← get).line.pos
+  if anchor == .after then do let _ ← lbQuiet (LB.moveForward S U 1); pure ()
   match ← lb S U (LB.yank S U text n) with
   | some _ => do
     if cfg.vi then do let _ ← lbQuiet (LB.moveBackward S U 1); pure ()
     refreshLine S U cfg
   | none =>
-    -- nothing was pasted: the cursor is put back (fix: edit_yank does not move the cursor when nothing is pasted)
-    if moved then do let _ ← lbQuiet (LB.moveBackward S U 1); pure ()
+    -- nothing was pasted: the cursor is put back where it was, `self.line.set_pos(pos)` (fix D45)
+    lbQuiet (LB.setPosChecked S U pos)
 
 def editYankPop (yankSize : Nat) (text : Text) : EM Unit := do
   let _ ← changesBegin
